@@ -558,9 +558,63 @@ def rule_RETRY(ctx, rid='S4'):
                'splits refused when overlap is allowed)' % unparse(t.expr)[:60])
 
 
+def rule_TRIMREF(ctx, rid='S5'):
+    """trim(): the candidate (lowest density) is compared with the typical density of the OTHER
+    ellipsoids.  A reference statistic that includes the candidate is pulled towards it: with two
+    ellipsoids only half the log-density gap reaches the threshold, so an ellipsoid the documented
+    rule drops (density < median of the others / threshold) is kept (C13_m)."""
+    ctx.rule(rid, 'trim-reference-excludes-candidate: in Union.trim the statistic the lowest '
+             'density is compared with is taken over the records without the candidate')
+    f = ctx.program.func('Union.trim')
+    cand = None      # index variable bound to argmin / argmax of the density record
+    for st in walk_no_nested(f.node):
+        if isinstance(st, ast.Assign) and len(st.targets) == 1 and \
+                isinstance(st.targets[0], ast.Name) and isinstance(st.value, ast.Call) and \
+                (dotted(st.value.func) or '') in ('np.argmin', 'np.argmax', 'np.nanargmin') and \
+                st.value.args:
+            cand = (st.targets[0].id, unparse(st.value.args[0]))
+    ctx.require(cand, 'S5 not decided: Union.trim does not pick its candidate by argmin')
+    idx, rec = cand
+    refs = []
+    for t in walk_no_nested(f.node):
+        if not isinstance(t, ast.If):
+            continue
+        for c in ast.walk(t.test):
+            if isinstance(c, ast.Call) and (dotted(c.func) or '') in (
+                    'np.median', 'np.mean', 'np.nanmedian', 'np.average', 'np.amax', 'np.max',
+                    'np.percentile', 'np.quantile') and c.args:
+                refs.append(c)
+    ctx.require(refs, 'S5 not decided: no reference statistic in the test of Union.trim')
+    for c in refs:
+        a = c.args[0]
+        a2 = a
+        if isinstance(a, ast.Name) and a.id != rec:
+            for st in walk_no_nested(f.node):
+                if isinstance(st, ast.Assign) and len(st.targets) == 1 and \
+                        isinstance(st.targets[0], ast.Name) and st.targets[0].id == a.id:
+                    a2 = st.value
+        excl = isinstance(a2, ast.Call) and dotted(a2.func) == 'np.delete' and \
+            len(a2.args) >= 2 and unparse(a2.args[1]) == idx and unparse(a2.args[0]) == rec
+        if not excl and isinstance(a2, ast.Subscript) and unparse(a2.value) == rec:
+            # boolean / index selection that names the candidate: rec[np.arange(n) != index]
+            excl = any(isinstance(x, ast.Compare) and len(x.ops) == 1 and
+                       isinstance(x.ops[0], ast.NotEq) and
+                       idx in (unparse(x.left), unparse(x.comparators[0]))
+                       for x in ast.walk(a2.slice))
+        whole = unparse(a2) == rec
+        ctx.require(excl or whole, 'S5 not decided: reference `%s` in Union.trim' % unparse(c)[:50])
+        ctx.ob(rid, 'Union.trim:reference-excludes-candidate', excl, f.where(c),
+               'the reference `%s` leaves the candidate out' % unparse(c)[:50] if excl else
+               '`%s` includes the candidate itself: the lowest density pulls the reference '
+               'towards it (with two ellipsoids the gap is halved), so trim() refuses to drop an '
+               'ellipsoid whose density is more than `threshold` below the others'
+               % unparse(c)[:40])
+
+
 def run(ctx):
     rule_REC(ctx)
     rule_RETRY(ctx)
+    rule_TRIMREF(ctx)
     prog = ctx.program
     ctx.rule('L1', 'group-complete: along every bounded path, all members of an aligned group '
              'undergo the same sequence of structural updates with the same selectors')
@@ -594,6 +648,7 @@ def run(ctx):
     ctx.floor('L6', 4, 'record obligations')
     ctx.floor('T9', 2, 'structural change sites')
     ctx.floor('S3', 2, 'cluster-size obligations')
+    ctx.floor('S5', 1, 'trim reference')
     ctx.not_decided += ['that the LARGER cluster keeps n_points_min members after the top-up '
                         '(depends on the mixture fit); the volumes themselves (numerics)',
                         '"no operation raises" in general']
